@@ -147,7 +147,7 @@ def run(F, R, tier):
                     if x[0] == "call" and q.ends(x[1], "HeaderValue::from_str"):
                         fmt = q.format_of(B, B.blocks[x[2]]["term"]["args"][0])
                         check_auth_format(B, R, fmt, HRS, q.where(B, bi),
-                                          lambda o: o[0] == "call" and q.ends(o[1], "get_current_key_guid", "get_current_key"),
+                                          lambda o: o[0] == "call" and "KeyKeeperSharedState::get_current_key" in q.base_name(o[1]),
                                           "C04.R2")
 
     # HNR: claims/date inserts dominate the HRS call (signed request already carries the proxy headers)
